@@ -59,6 +59,7 @@ type wCase struct {
 
 // guardsAreNamespace: every conjunct of a case condition compares the local name or the namespace
 func guardsAreNamespace(e ast.Expr) bool {
+	e = inlineNamePredicate(e)
 	switch x := e.(type) {
 	case *ast.ParenExpr:
 		return guardsAreNamespace(x.X)
@@ -99,6 +100,7 @@ func isDecoderParam(fd *ast.FuncDecl) bool {
 
 // isSpaceCond: a comparison of the namespace of the element (X.Name.Space == ...)
 func isSpaceCond(e ast.Expr) bool {
+	e = inlineNamePredicate(e)
 	switch x := e.(type) {
 	case *ast.ParenExpr:
 		return isSpaceCond(x.X)
@@ -116,6 +118,7 @@ var otherGuards int
 
 // nameCond recognises `X.Name.Local == "lit"` possibly conjoined with other conditions
 func nameCond(e ast.Expr) (name string, guarded bool, ok bool) {
+	e = inlineNamePredicate(e)
 	switch x := e.(type) {
 	case *ast.ParenExpr:
 		return nameCond(x.X)
@@ -673,7 +676,14 @@ func genWalkers(repo string) (string, error) {
 				ws = append(ws, w)
 				continue
 			}
-			if err := c.casesOf([]ast.Stmt{sw}, w, where); err != nil {
+			// what follows the switch is what the names without a case of their own run into
+			swStmts := []ast.Stmt{sw}
+			for si, s := range fd.Body.List {
+				if s == ast.Stmt(sw) {
+					swStmts = fd.Body.List[si:]
+				}
+			}
+			if err := c.casesOf(swStmts, w, where); err != nil {
 				return "", err
 			}
 			for i := range w.cases {
@@ -726,8 +736,62 @@ func genWalkers(repo string) (string, error) {
 			}
 			w.depth = true
 		}
+		// the same loop written without a condition: depth := 1; for { ... case end: depth--; if depth == 0 { return nil } }
+		depthReturns := false
+		if loop.Cond == nil {
+			cand := ""
+			for _, s := range fd.Body.List {
+				if _, isFor := s.(*ast.ForStmt); isFor {
+					break
+				}
+				if as, ok := s.(*ast.AssignStmt); ok && len(as.Lhs) == 1 && len(as.Rhs) == 1 {
+					if bl, isLit := as.Rhs[0].(*ast.BasicLit); isLit && bl.Value == "1" {
+						cand = exprStringDeep(as.Lhs[0])
+					}
+				}
+			}
+			if cand != "" {
+				counted := false
+				ast.Inspect(loop.Body, func(n ast.Node) bool {
+					if ids, ok := n.(*ast.IncDecStmt); ok && exprStringDeep(ids.X) == cand {
+						counted = true
+					}
+					return true
+				})
+				if counted {
+					depthVar = cand
+					w.depth = true
+					depthReturns = true
+				}
+			}
+		}
 		// in a depth loop a start element counts up and an end element counts down, and nothing else happens
 		depthClause := func(body []ast.Stmt, tok token.Token) bool {
+			if depthReturns && tok == token.DEC {
+				// the count and the way out: if depth == 0 { return nil }
+				if len(body) != 2 {
+					return false
+				}
+				is, ok := body[1].(*ast.IfStmt)
+				if !ok || is.Init != nil || is.Else != nil || len(is.Body.List) != 1 {
+					return false
+				}
+				be, ok := is.Cond.(*ast.BinaryExpr)
+				zero, isLit := be.Y.(*ast.BasicLit)
+				if !ok || be.Op != token.EQL || exprStringDeep(be.X) != depthVar || !isLit || zero.Value != "0" {
+					return false
+				}
+				rs, ok := is.Body.List[0].(*ast.ReturnStmt)
+				if !ok {
+					return false
+				}
+				if len(rs.Results) > 0 {
+					if id, ok := rs.Results[len(rs.Results)-1].(*ast.Ident); !ok || id.Name != "nil" {
+						return false
+					}
+				}
+				body = body[:1]
+			}
 			if len(body) != 1 {
 				return false
 			}
@@ -909,6 +973,9 @@ func genWalkers(repo string) (string, error) {
 				}
 			}
 		}
+		if synth, ok := ifAssertsToSwitch(body[idx:]); ok {
+			body = append(append([]ast.Stmt{}, body[:idx]...), synth)
+		}
 		if idx != len(body)-1 {
 			return "", fmt.Errorf("%s: %d statements after the error checks (one type switch expected)", where, len(body)-idx)
 		}
@@ -1086,7 +1153,130 @@ func genWalkers(repo string) (string, error) {
 		fmt.Fprintf(&b, "  mkW %s %s %s %s [%s] %s%s\n", coqString(w.name), kind, eof, coqStringList(w.ends), strings.Join(cs, "; "), w.def.coq(), sep)
 	}
 	b.WriteString("].\n")
+	entry, err := c.entryWalker(byName)
+	if err != nil {
+		return "", err
+	}
+	fmt.Fprintf(&b, "\n(* the walker the main part is handed to *)\nDefinition entry_walker : string := %s.\n", coqString(entry))
 	return b.String(), nil
+}
+
+// entryWalker: the function that takes the main part out of the package and creates the decoder over it is the
+// entry of the walk when it pulls the tokens itself; when it hands the decoder on, the entry is the (one) token loop
+// it hands it to
+func (c *wCtx) entryWalker(byName map[string]*wWalker) (string, error) {
+	var cands []*ast.FuncDecl
+	for _, fd := range c.p.allFuncs() {
+		if fd.Body == nil {
+			continue
+		}
+		newDec, mainPart := false, false
+		ast.Inspect(fd.Body, func(n ast.Node) bool {
+			switch x := n.(type) {
+			case *ast.CallExpr:
+				if exprStringDeep(x.Fun) == "xml.NewDecoder" {
+					newDec = true
+				}
+			case *ast.BasicLit:
+				if v, ok := strLit(x); ok && v == "word/document.xml" {
+					mainPart = true
+				}
+			case *ast.Ident:
+				if v, ok := constStrings[x.Name]; ok && v == "word/document.xml" {
+					mainPart = true
+				}
+			}
+			return true
+		})
+		if newDec && mainPart {
+			cands = append(cands, fd)
+		}
+	}
+	if len(cands) != 1 {
+		return "", fmt.Errorf("entry point: %d functions create a decoder over the main part (one expected)", len(cands))
+	}
+	fd := cands[0]
+	if w, ok := byName[fd.Name.Name]; ok && w.loop {
+		return fd.Name.Name, nil
+	}
+	var handed []string
+	ast.Inspect(fd.Body, func(n ast.Node) bool {
+		if ce, ok := n.(*ast.CallExpr); ok {
+			name := ""
+			switch f := ce.Fun.(type) {
+			case *ast.SelectorExpr:
+				name = f.Sel.Name
+			case *ast.Ident:
+				name = f.Name
+			}
+			if w, ok := byName[name]; ok && w.loop {
+				handed = append(handed, name)
+			}
+		}
+		return true
+	})
+	if len(handed) != 1 {
+		return "", fmt.Errorf("entry point: %s hands the decoder of the main part to %d token loops (one expected)", fd.Name.Name, len(handed))
+	}
+	return handed[0], nil
+}
+
+// inlineNamePredicate: a call of a one-line predicate of the package over the name of the element
+// (func f(name xml.Name) bool { return <expr> }) is replaced by its expression over the argument
+func inlineNamePredicate(e ast.Expr) ast.Expr {
+	ce, ok := e.(*ast.CallExpr)
+	if !ok || len(ce.Args) != 1 || curWalkPkg == nil || !strings.HasSuffix(exprStringDeep(ce.Args[0]), ".Name") {
+		return e
+	}
+	fname := ""
+	switch f := ce.Fun.(type) {
+	case *ast.Ident:
+		fname = f.Name
+	case *ast.SelectorExpr:
+		fname = f.Sel.Name
+	}
+	fd := curWalkPkg.funcDecl("", fname)
+	if fd == nil || fd.Body == nil || len(fd.Body.List) != 1 || fd.Type.Params == nil || len(fd.Type.Params.List) != 1 || len(fd.Type.Params.List[0].Names) != 1 {
+		return e
+	}
+	if exprString(fd.Type.Params.List[0].Type) != "xml.Name" {
+		return e
+	}
+	rs, ok := fd.Body.List[0].(*ast.ReturnStmt)
+	if !ok || len(rs.Results) != 1 {
+		return e
+	}
+	out, ok := substIdent(rs.Results[0], fd.Type.Params.List[0].Names[0].Name, ce.Args[0])
+	if !ok {
+		return e
+	}
+	return out
+}
+
+func substIdent(e ast.Expr, name string, by ast.Expr) (ast.Expr, bool) {
+	switch x := e.(type) {
+	case *ast.Ident:
+		if x.Name == name {
+			return by, true
+		}
+		return x, true
+	case *ast.BasicLit:
+		return x, true
+	case *ast.ParenExpr:
+		in, ok := substIdent(x.X, name, by)
+		return &ast.ParenExpr{X: in}, ok
+	case *ast.SelectorExpr:
+		in, ok := substIdent(x.X, name, by)
+		return &ast.SelectorExpr{X: in, Sel: x.Sel}, ok
+	case *ast.BinaryExpr:
+		l, ok1 := substIdent(x.X, name, by)
+		r, ok2 := substIdent(x.Y, name, by)
+		return &ast.BinaryExpr{X: l, Op: x.Op, Y: r}, ok1 && ok2
+	case *ast.UnaryExpr:
+		in, ok := substIdent(x.X, name, by)
+		return &ast.UnaryExpr{Op: x.Op, X: in}, ok
+	}
+	return e, false
 }
 
 var curWalkPkg *pkgSrc
@@ -1106,4 +1296,75 @@ func callsToken(fd *ast.FuncDecl) bool {
 		return true
 	})
 	return found
+}
+
+// ifAssertsToSwitch: a run of statements `if x, ok := token.(T); ok [&& cond] { ... }` over pairwise different token
+// types does what a type switch with one clause per type does (at most one of them applies to a token, and falling out
+// of a clause goes on with the loop just as `continue` does). A body with a plain break is refused: in the run of ifs it
+// leaves the loop, in a switch it would not.
+func ifAssertsToSwitch(stmts []ast.Stmt) (*ast.TypeSwitchStmt, bool) {
+	if len(stmts) == 0 {
+		return nil, false
+	}
+	seen := map[string]bool{}
+	ts := &ast.TypeSwitchStmt{Body: &ast.BlockStmt{}}
+	for _, s := range stmts {
+		is, ok := s.(*ast.IfStmt)
+		if !ok || is.Else != nil {
+			return nil, false
+		}
+		as, ok := is.Init.(*ast.AssignStmt)
+		if !ok || len(as.Lhs) != 2 || len(as.Rhs) != 1 {
+			return nil, false
+		}
+		ta, ok := as.Rhs[0].(*ast.TypeAssertExpr)
+		if !ok || ta.Type == nil {
+			return nil, false
+		}
+		tn := exprStringDeep(ta.Type)
+		if seen[tn] {
+			return nil, false
+		}
+		seen[tn] = true
+		okName := exprStringDeep(as.Lhs[1])
+		var conj []ast.Expr
+		var flat func(e ast.Expr)
+		flat = func(e ast.Expr) {
+			if b, ok := e.(*ast.BinaryExpr); ok && b.Op == token.LAND {
+				flat(b.X)
+				flat(b.Y)
+				return
+			}
+			conj = append(conj, e)
+		}
+		flat(is.Cond)
+		if exprStringDeep(conj[0]) != okName {
+			return nil, false
+		}
+		bad := false
+		ast.Inspect(is.Body, func(n ast.Node) bool {
+			if br, ok := n.(*ast.BranchStmt); ok && br.Tok == token.BREAK && br.Label == nil {
+				bad = true
+			}
+			return true
+		})
+		if bad {
+			return nil, false
+		}
+		blist := is.Body.List
+		if n := len(blist); n > 0 {
+			if br, ok := blist[n-1].(*ast.BranchStmt); ok && br.Tok == token.CONTINUE && br.Label == nil {
+				blist = blist[:n-1]
+			}
+		}
+		if len(conj) > 1 {
+			rest := conj[1]
+			for _, e := range conj[2:] {
+				rest = &ast.BinaryExpr{X: rest, Op: token.LAND, Y: e}
+			}
+			blist = []ast.Stmt{&ast.IfStmt{Cond: rest, Body: &ast.BlockStmt{List: blist}}}
+		}
+		ts.Body.List = append(ts.Body.List, &ast.CaseClause{List: []ast.Expr{ta.Type}, Body: blist})
+	}
+	return ts, true
 }
